@@ -14,7 +14,9 @@ Results go to seeded/RESULTS.json / RESULTS.md.  /repo itself is never modified.
 import argparse, json, os, subprocess, sys, shutil, concurrent.futures as cf
 
 VERIF = os.path.dirname(os.path.dirname(os.path.abspath(__file__)))
-SCR = "/var/tmp/persim-seedrun"
+import hashlib
+# one scratch area per checkout of /verif, so that two checkouts running the same seeded name do not collide
+SCR = "/var/tmp/persim-seedrun-" + hashlib.sha1(VERIF.encode()).hexdigest()[:8]
 
 
 def sh(cmd, cwd=None, env=None, timeout=3600):
